@@ -169,6 +169,15 @@ static void dec_gen(Rng &rng, Plan &plan, bool thorough)
 	plan.setp("threading_mode", (int64_t)rng.below(4));   // MT: 0 = 1 byte, 1 = need_st, 2 = 3*need_st, 3 = unlimited
 	plan.setp("in_each", (int64_t)(1 + rng.size_skewed(30000)));
 	plan.setp("out_each", (int64_t)(1 + rng.size_skewed(30000)));
+	if (plan.p("kind") == DK_MT && rng.chance(450)) {
+		// Blocks big enough that one output buffer too many is visible beyond the allowance; equal-sized
+		// neighbours with different declared dictionaries (threaded Block followed by a direct-mode Block)
+		plan.setp("in_class", rng.chance(500) ? IN_TEXT : IN_RUNS);
+		plan.setp("in_len", 300000 + (int64_t)rng.below(thorough ? 3000000 : 1200000));
+		plan.setp("blocks", rng.range(2, 5));
+		for (int i = 0; i < 5; ++i) plan.setp(fmt("dict%d", i), (int64_t)rng.below(thorough ? 6 : 5));
+		plan.setp("threads", rng.range(2, 6));
+	}
 }
 
 static void dec_exec(const Plan &plan, Verdict &v)
